@@ -73,11 +73,11 @@ fcp_parser = Lark(
     struct: "struct" identifier "{" struct_field+ "}"
     struct_field: identifier "@" number ":" type "|"? param* ","
     type: (unsigned_type | signed_type | float_type | double_type | str_type | array_type | composed_type | dynamic_array_type | optional_type)
-    str_type: "str"
-    unsigned_type: "u" (DIGIT | DIGIT DIGIT)
-    signed_type: "i" (DIGIT | DIGIT DIGIT)
-    float_type: "f32"
-    double_type: "f64"
+    str_type: STR_TYPE
+    unsigned_type: UNSIGNED_TYPE
+    signed_type: SIGNED_TYPE
+    float_type: FLOAT_TYPE
+    double_type: DOUBLE_TYPE
     array_type: "[" type "," number "]"
     dynamic_array_type: "[" type "]"
     composed_type: identifier
@@ -105,6 +105,13 @@ fcp_parser = Lark(
     number: SIGNED_NUMBER
     value : array | identifier | number | string
     array: "[" value ("," value)* "]"
+
+    // builtin type names end at a word boundary: "u8x" or "string" are identifiers
+    STR_TYPE: /str(?![A-Za-z0-9_])/
+    UNSIGNED_TYPE: /u[0-9]{1,2}(?![A-Za-z0-9_])/
+    SIGNED_TYPE: /i[0-9]{1,2}(?![A-Za-z0-9_])/
+    FLOAT_TYPE: /f32(?![A-Za-z0-9_])/
+    DOUBLE_TYPE: /f64(?![A-Za-z0-9_])/
 
     COMMENT: C_COMMENT | CPP_COMMENT
 
@@ -256,11 +263,11 @@ class FcpV2Transformer(Transformer):
 
     def unsigned_type(self, args: List[str]) -> Result[UnsignedType, FcpError]:
         """Parse an unsigned type."""
-        return Ok(UnsignedType("u" + "".join(args)))
+        return Ok(UnsignedType(str(args[0])))
 
     def signed_type(self, args: List[str]) -> Result[SignedType, FcpError]:
         """Parse a signed type."""
-        return Ok(SignedType("i" + "".join(args)))
+        return Ok(SignedType(str(args[0])))
 
     def float_type(self, args: List[str]) -> Result[FloatType, FcpError]:
         """Parse a float type."""
